@@ -186,7 +186,7 @@ func xctxFamily(tier string) *core.Family {
 						panic(err)
 					}
 				}
-				r := rem.run(&Job{Name: "x", Src: p.src, M: m, Epi: true, WatchMs: 20000}, 40*time.Second)
+				r := rem.run(&Job{Name: "x", Src: p.src, M: m, Epi: true, Full: true, WatchMs: 20000}, 40*time.Second)
 				if r.Status == "died" || r.Status == "timeout" {
 					rem.stop()
 					rem = nil
